@@ -67,7 +67,16 @@ fn run(c: &Case, out: &mut Out) {
 }
 
 fn consistent(o: &CmpObs) -> bool {
-    o.partial == Some(o.cmp) && o.lt == (o.cmp == Ordering::Less) && o.gt == (o.cmp == Ordering::Greater) && o.le == (o.cmp != Ordering::Greater) && o.ge == (o.cmp != Ordering::Less)
+    o.partial == Some(o.cmp)
+        && o.lt == (o.cmp == Ordering::Less)
+        && o.gt == (o.cmp == Ordering::Greater)
+        && o.le == (o.cmp != Ordering::Greater)
+        && o.ge == (o.cmp != Ordering::Less)
+        // max(a, b) is b unless a > b; min(a, b) is a unless a > b (std's tie rules); a lies within [min, max]
+        && (o.max_is_b || o.cmp == Ordering::Greater)
+        && (o.min_is_a || o.cmp == Ordering::Greater)
+        && (o.cmp != Ordering::Greater || (!o.max_is_b && !o.min_is_a))
+        && o.clamp_ok
 }
 
 /// one ordered pair of k-mers against integer order and the colexicographic model
@@ -230,6 +239,31 @@ fn run_g<A: SxK>(c: &Case, out: &mut Out) {
                             b[q] = if x_less { lo } else { hi };
                         }
                         pair::<A>(api, &a, &b, out);
+                    }
+                }
+            }
+            // total order consistent with equality over storage values in general (Kmer::from(integer) is
+            // public and unchecked): values with bits above the K symbols as well
+            let kb = *k * bits;
+            let width = sid.width();
+            if kb < width {
+                let lowmask: u128 = (1u128 << kb) - 1;
+                let vals: Vec<u128> = {
+                    let c = pack_u128(&codes(&base), bits);
+                    let hi1 = 1u128 << kb;
+                    let hitop = 1u128 << (width - 1);
+                    vec![c, c | hi1, c | hitop, (c ^ 1) & lowmask, ((c ^ 1) & lowmask) | hi1, c | hi1 | hitop]
+                };
+                for &x in &vals {
+                    for &y in &vals {
+                        if let Ok((Some(o), (eq, ne))) = catch(|| (api.cmp(x, y), api.eq(x, y))) {
+                            out.check((o.cmp == Ordering::Equal) == eq && eq != ne && consistent(&o), || {
+                                (
+                                    format!("{cn}/kmer<{}>-cmp/order-inconsistent-with-equality", sid.name()),
+                                    format!("storage values {x:#x} and {y:#x} (K={k}): cmp = {:?} but == is {eq}", o.cmp),
+                                )
+                            });
+                        }
                     }
                 }
             }
